@@ -108,7 +108,7 @@ func storedAncestor(w *pvx.World, anc, of int64) bool {
 // restart (sub-check a): returns false when the history is not in a restartable state
 // (forced: a "restartx" operation, performed whatever the stored links name).
 func (r *runState) restart(forced bool) bool {
-	if !forced && !reopenable(r.w) {
+	if !forced && !r.restartable() {
 		return false
 	}
 	r.finish() // the old process is gone: its listener sockets with it
